@@ -799,7 +799,20 @@ var noiseExceptional = func() []*big.Int {
 // may be. Checks sprinkle it between cases so that no monitored call is always the first of its kind in the process.
 func Noise(r *gen.Rng) {
 	for i := 0; i < 3; i++ {
-		switch r.Intn(20) {
+		switch r.Intn(22) {
+		case 20, 21:
+			// inputs rejected at each stage of the decoders (length and prefix pass): abscissa not reduced, abscissa off the
+			// curve, ordinate that does not match, coordinates off the curve, scalar out of range
+			x := r.Bytes(32)
+			y := r.Bytes(32)
+			_ = secp256k1.NewElement().Decode(append([]byte{2}, x...))
+			_ = secp256k1.NewElement().Decode(append([]byte{3}, oracle.Bytes32(new(big.Int).Add(oracle.P, big.NewInt(int64(r.Intn(900)))))...))
+			_ = secp256k1.Base().DecodeCompressed(append([]byte{2}, make([]byte, 32)...))
+			_ = secp256k1.Base().Decode(append(append([]byte{4}, x...), y...))
+			_ = secp256k1.NewElement().DecodeUncompressed(append(append([]byte{4}, oracle.Bytes32(oracle.Gx)...), y...))
+			_ = secp256k1.NewElement().DecodeCoordinates([32]byte(x), [32]byte(y))
+			_ = secp256k1.NewScalar().Decode(oracle.Bytes32(new(big.Int).Add(oracle.N, big.NewInt(int64(r.Intn(900))))))
+			_ = secp256k1.NewScalar().DecodeHex("zz")
 		case 0:
 			secp256k1.NewScalar().MinusOne()
 		case 1:
